@@ -591,8 +591,6 @@ package larking
 //@   modifies G$buf.
 //@ func (*streamGRPC).SendHeader trusted
 //@   modifies F$streamGRPC.header, F$streamGRPC.sentHeader
-//@ func inPayload trusted pure
-//@ func outPayload trusted pure
 
 // m must be a proto.Message (a precondition on handlers, not on requests).
 //@ func (*streamGRPC).RecvMsg serves C06 C08 C09 partial index slice make nil assert ghost pre post
@@ -712,3 +710,53 @@ package larking
 //@   witness verifWitnessNewMux
 //@   assert at "muxOpts.contentTypeOffers = append(muxOpts.contentTypeOffers, k)" [content-type-offers-are-codecs C04] maphas(muxOpts.codecs, k#2)
 //@   assert at "muxOpts.encodingTypeOffers = append(muxOpts.encodingTypeOffers, k)" [encoding-offers-are-compressors C04] maphas(muxOpts.compressors, k#4)
+
+// ---------------------------------------------------------------------------
+// Publication discipline (C11, C12, C16): the routing state is replaced by one
+// atomic store, on success only; a request loads it once.
+//@ func (*state).removeHandler trusted
+//@   returns (ok)
+//@   modifies F$state., M$
+//@ func (*Mux).DropConn serves C11 C12 partial count post
+//@   returns (ok)
+//@   requires m != nil
+//@   count stores `m.storeState(`
+//@   witness verifWitnessDropConn
+//@   ensures [dropped-state-published C11] ok ==> stores == 1
+//@   ensures [unknown-conn-changes-nothing C11 C12] !ok ==> stores == 0
+
+//@ func (*Mux).registerService serves C12 C16 partial count post
+//@   returns (err)
+//@   requires m != nil
+//@   count stores `m.storeState(`
+//@   ensures [store-on-success-only C12 C16] (err == nil ==> stores == 1) && (err != nil ==> stores == 0)
+
+//@ func (*Mux).RegisterConn serves C11 C12 partial count post
+//@   returns (err)
+//@   requires m != nil
+//@   count stores `m.storeState(`
+//@   ensures [at-most-one-store C12] stores <= 1
+//@   ensures [failed-registration-changes-nothing C12] at "return err" stores == 0
+
+// ---------------------------------------------------------------------------
+// Interceptors and stats (C18): the nil-safe wrappers invoke exactly one of
+// interceptor / handler; payload events describe the payload.
+//@ func (*muxOptions).unary serves C18 partial count post
+//@   requires o != nil
+//@   count viaInterceptor `ui(`
+//@   count direct `handler(`
+//@   ensures [exactly-once C18] viaInterceptor + direct == 1
+//@ func (*muxOptions).stream serves C18 partial count post
+//@   requires o != nil
+//@   count viaInterceptor `si(`
+//@   count direct `handler(`
+//@   ensures [exactly-once C18] viaInterceptor + direct == 1
+
+//@ func outPayload serves C18
+//@   requires len(payload) <= 4611686018427387904
+//@   ensures [payload-event C18] result != nil && result.Client == client && result.Length == len(payload) && result.WireLength == len(payload) + 5
+//@   oracle result.Client == client && result.Length == len(payload) && result.WireLength == len(payload)+5
+//@ func inPayload serves C18
+//@   requires len(payload) <= 4611686018427387904
+//@   ensures [payload-event C18] result != nil && result.Client == client && result.Length == len(payload) && result.WireLength == len(payload) + 5
+//@   oracle result.Client == client && result.Length == len(payload) && result.WireLength == len(payload)+5
